@@ -1,6 +1,77 @@
 """Verus units: functions extracted byte-for-byte from the scratch copy on every run (verus/extract.py)."""
-import os, sys, time, json, subprocess
-sys.path.insert(0, os.path.dirname(os.path.abspath(__file__)))
+import os, sys, time, json, re
+V = os.path.dirname(os.path.dirname(os.path.abspath(__file__)))
+sys.path.insert(0, os.path.join(V, "verus"))
+import extract as X
+
+def unit_c06_crc(src, outdir):
+    crc = open(os.path.join(src, "dnp3/src/link/crc.rs")).read()
+    # cut off anything woven after the real code
+    crc = crc.split("\n#[cfg(kani)]")[0]
+    items = {}
+    items["table"] = X.find_item(crc, r"^const CRC_TABLE: \[u16; 256\] =")
+    items["c0564"] = X.find_item(crc, r"^const CRC_OF_0564: u16 =")
+    items["calc_crc"] = X.find_item(crc, r"^pub\(crate\) fn calc_crc\(")
+    items["calc_crc_with_0564"] = X.find_item(crc, r"^pub\(crate\) fn calc_crc_with_0564\(")
+    items["crc_increment"] = X.find_item(crc, r"^pub\(crate\) fn crc_increment\(")
+    sp = {}
+    sp["calc_crc"] = X.splice_fn(items["calc_crc"], ret_name="r", sig_clause="\n    ensures r == !fold(0, slice@)\n")
+    sp["calc_crc_with_0564"] = X.splice_fn(items["calc_crc_with_0564"], ret_name="r", sig_clause="\n    ensures r == !fold(CRC_OF_0564, slice@)\n")
+    sp["crc_increment"] = X.splice_fn(
+        items["crc_increment"], ret_name="r",
+        sig_clause="\n    ensures r == fold(acc, slice@)\n",
+        loop_invariants={0: ("it", "\n        invariant acc == fold(acc0, slice@.take(it.index@ as int)),\n    ")},
+        proof_blocks=[
+            ("    for byte", "    let ghost acc0 = acc;\n"),
+            ("        let index =", "        proof {\n            let i = it.index@ as int;\n            assert(slice@.take(i + 1).drop_last() =~= slice@.take(i));\n            assert(slice@.take(i + 1).last() == slice@[i]);\n        }\n"),
+            ("    acc\n}", "    proof { assert(slice@.take(slice@.len() as int) =~= slice@); }\n"),
+        ])
+    # the verified text must be the repo text once the splices are removed
+    for k in ("calc_crc", "calc_crc_with_0564", "crc_increment"):
+        if X.normalise(X.strip(sp[k])) != X.normalise(items[k]):
+            raise X.ExtractError("extraction of %s is not verbatim after stripping splices" % k)
+    lemmas = open(os.path.join(V, "verus", "c06_crc.lemmas.rs")).read()
+    text = "use vstd::prelude::*;\nverus! {\n// ---- verbatim from dnp3/src/link/crc.rs\n%s\n\n%s\n\n%s\n\n%s\n\n%s\n\n%s\n}\nfn main() {}\n" % (
+        items["table"], items["c0564"], sp["calc_crc"], sp["calc_crc_with_0564"], sp["crc_increment"], lemmas)
+    path = os.path.join(outdir, "c06_crc.rs")
+    open(path, "w").write(text)
+    return {"name": "verus_c06_crc", "file": path,
+            "functions": ["link::crc::crc_increment (any slice length)", "link::crc::calc_crc", "link::crc::calc_crc_with_0564"],
+            "lemmas": ["lemma_fold_linear (L-C06a)", "lemma_acceptance_depends_only_on_error", "lemma_syndrome_additive"],
+            "assumed": ["axiom_step_linear: external_body, discharged by Kani harness vk_c06_crc_step_linear",
+                        "verbatim `acc as u8` truncating cast is an uninterpreted function for Verus (same symbol in code and spec); its meaning is the Kani obligation vk_c06_crc_increment_one_byte"],
+            "dropped": "nothing from the bodies; contract clauses, loop invariant, ghost `acc0` and three proof blocks are spliced between /*@verif-splice*/ markers and stripped again for the verbatim comparison"}
+
+UNITS = {"C06": [unit_c06_crc]}
 
 def run(pid, tier, src, scratch):
-    return {"units": [], "time_s": 0.0, "functions": []}
+    outdir = os.path.join(scratch, "verus")
+    os.makedirs(outdir, exist_ok=True)
+    units, funcs, total = [], [], 0.0
+    for mk in UNITS.get(pid, []):
+        try:
+            u = mk(src, outdir)
+        except X.ExtractError as e:
+            units.append({"name": mk.__name__, "status": "undecided", "reason": str(e)})
+            continue
+        try:
+            r = X.run_verus(u["file"])
+        except Exception as e:
+            u.update({"status": "undecided", "reason": "verus did not run: %s" % e})
+            units.append(u); continue
+        total += r["wall_s"]
+        u.update({"verified": r["verified"], "errors": max(r["errors"], 0), "wall_s": r["wall_s"], "smt_s": r.get("smt_s")})
+        if r["errors"] == 0 and r["verified"] > 0 and r["exit"] == 0:
+            u["status"] = "verified"
+        elif r["errors"] > 0:
+            u["status"] = "failed"
+            m = re.search(r"error: ([^\n]*)\n\s*--> ([^\n]*)", r["stderr_tail"])
+            u["first_error"] = (m.group(1) + " at " + m.group(2)) if m else "verus reported errors"
+            u["output_tail"] = r["stderr_tail"][-1500:]
+        else:
+            u["status"] = "undecided"
+            u["reason"] = "verus exit %s, no obligations or tool error: %s" % (r["exit"], r.get("stderr_tail", "")[-400:])
+        # vacuity: the file must contain obligations
+        units.append(u)
+        funcs += u.get("functions", [])
+    return {"units": units, "time_s": round(total, 2), "functions": funcs}
